@@ -1503,6 +1503,14 @@ func (g *genCtx) compileIface(c *Contract) {
 			a.Kind = "stream"
 			cl.Text = t[7 : len(t)-1]
 			emit(cl, false, "interface{}")
+		case strings.HasPrefix(t, "instream(") && strings.HasSuffix(t, ")"):
+			a.Kind = "instream"
+			cl.Text = t[9 : len(t)-1]
+			emit(cl, false, "interface{}")
+		case strings.HasPrefix(t, "outstream(") && strings.HasSuffix(t, ")"):
+			a.Kind = "outstream"
+			cl.Text = t[10 : len(t)-1]
+			emit(cl, false, "interface{}")
 		default:
 			g.errs = append(g.errs, fmt.Sprintf("%s:%d: iface assigns supports bytes()/stream() only: %q", c.File, c.Line, t))
 			continue
